@@ -11,14 +11,16 @@ import (
 func init() {
 	core.Register(&core.Info{
 		ID: "C16", Level: "exploration",
-		Rule: "eight case families over one index space (the last four appended by the audit of the workload's dimensions; the first four keep their case numbers). names: (measurement, related measurement) pairs through GCETcbObjectName (SNP, TDX) and GCETcbURL against the monitor's own name model and inverse; " +
+		Rule: "ten case families over one index space (families five to eight appended by the audit of the workload's dimensions, the last two in the fourth round; earlier families keep their case numbers). names: (measurement, related measurement) pairs through GCETcbObjectName (SNP, TDX) and GCETcbURL against the monitor's own name model and inverse; " +
 			"events: a real snapshot endorse run of a generated image, its <image>.evts.pb decoded by an independent SP800-155 decoder and by the repository's, then fed through a generated boot event log into extract.Endorsement; " +
 			"precedence: one point of the product {event-log shape} x {manufacturer filter} x {quote format x entry} x {provider} x {getter} x {forced fetch}, its event log kept on a drawn medium (regular file, named pipe, symbolic link to either), run through extract.Endorsement (twice) and, for a third, through the extract command; " +
 			"the checker works on the recorded URL list and the returned bytes; confine: (GUID, UCS-2 name) through EfiVarFSReader.ReadVariable and through an event-log variable locator against a scratch efivarfs tree with symlinks and outside canaries; " +
 			"sequences: 3-6 calls of extract.Endorsement that use ONE event-log path, efivarfs root and set of variable names whose contents change between the calls (one source changed per step: same again, forced fetch toggled, variables rewritten / removed / created under their names, log rewritten, quote refilled, provider changed, getter changed, filter changed, all new), through one kept Options / variable reader / getter / provider value of which only the changed fields are re-assigned (quote buffer refilled in place) or through fresh values per call, returned slices edited by the caller or kept and compared after the later calls; " +
 			"concurrent: 4-8 independent precedence cases released together on as many goroutines (4 rounds each), beside a tight loop over GCETcbObjectName/GCETcbURL per goroutine and reads through one shared EfiVarFSReader, every call judged afterwards by the sequential rules; " +
 			"edges: recognised quote formats whose measurement field is 0/1/47/49/64/96 bytes long (supplied and from the provider), equivalent encodings of documented formats (protobuf field order, padded length varints, upper-case hex, base64 in lines), events whose platform manufacturer is not their firmware manufacturer and a foreign manufacturer filter, the efivarfs root and event-log path respelled (trailing / doubled slash, dot and dot-dot segments, directory symlink, relative; a directory as log), variable names that lead into a directory next to the root whose name starts with the root's; " +
-			"events-again: 2-3 snapshot endorse runs of different images into one version-control double (same or another image name) from one kept endorse.Context whose Image is re-assigned, or from fresh Contexts, each run's events judged against that run's image. " +
+			"events-again: 2-3 snapshot endorse runs of different images into one version-control double (same or another image name) from one kept endorse.Context whose Image is re-assigned, or from fresh Contexts, each run's events judged against that run's image; " +
+			"surroundings: an event log with variable locators whose variables are whole or faulty under the root (absent, shorter than the attribute header, a directory, a dangling relative / absolute link; the root itself missing, a regular file, empty) while files and directories of the very name asked for lie AROUND the root (parent directory and the one above, vars/<name>-<guid>/data and raw_var of the legacy sysfs layout, a directory efivarfs, a backup copy of the root), the root standing directly in the case directory, one below, or as under /sys/firmware/efi, spelled canonically or not - every variable read through EfiVarFSReader.ReadVariable, the log through extract.Endorsement (twice) and for a third through the command's --efivarfs; the static tree of the confine family has the same legacy-layout files next to its root; " +
+			"defaults: 2-5 independent users in one process plus one with no evidence at all, one after the other or all at the same time (taking, assigning, extracting in three phases), each of which takes extract.DefaultOptions() and assigns only the fields in which it differs from the documented defaults (the getter always; the log location left alone where the host has no kernel event log and the user's log is a missing file), every call judged by the precedence rules on its user's sources. " +
 			"non-trivial = distinct (family, input class, outcome class) cells in which an oracle rule had something to decide",
 		Assumptions: []string{
 			"hex(measurement) in the object name is lower case (as the published bucket objects are); the name model is family prefix ovmf_x64_csm / sevsnp|tdx / hex .binarypb",
@@ -35,6 +37,8 @@ func init() {
 			"equivalent encodings carry the expectations of the plain encoding: the same protobuf message with its fields in another order or its lengths as padded varints, hex with upper-case digits, base64 broken into 76-column lines (all accepted by the unchanged decoders)",
 			"the manufacturer filter is exact equality with the event's FIRMWARE manufacturer string (as the option's name and the anchors say); the platform manufacturer string does not take part",
 			"the efivarfs root and the event-log location are places, not spellings: a trailing or doubled slash, dot segments, a directory symlink on the way or a relative path name the same root / log",
+			"a faulty variable (absent, too short, not a regular file, a link to nothing, no root) makes the event log yield nothing, whatever lies around the root: nothing outside the root is the variable, so the next local source answers; files around the root are planted before the call and never changed during it",
+			"a value handed out by extract.DefaultOptions() stands for the documented defaults in every field its user did not assign: no quote (the provider is asked), no provider, no forced fetch, the GCE firmware manufacturer as filter, /sys/kernel/security/tpm0/binary_bios_measurements as event-log location; what other users of the process did with the values handed to THEM is not a source of this user's call. The default getter is never left in place (it would reach for the real network)",
 			"the strace monitor runs in the thorough tier only and is skipped with a note when strace cannot start",
 		},
 		ShardsQuick: 8, ShardsThor: 16, TimeoutS: 600, TimeoutThor: 3000, Run: run,
@@ -66,6 +70,7 @@ func run(c *core.Ctx) {
 	}
 	base += nEvents
 	w := buildConfWorld(sc, c.RandNamed("confine-world"))
+	w.plantWorldDecoys(c.RandNamed("confine-world-surroundings"))
 	var cs struct{ inside, refused, viaLog int }
 	var batch []straceCase
 	for k := 0; k < nConf; k++ {
@@ -124,6 +129,28 @@ func run(c *core.Ctx) {
 			runEventsAgain(c, sc, i, &as)
 		}
 	}
+	base += nEvAgain
+	// families appended in the fourth round (round4.go)
+	var r4 round4Stats
+	nNb, nDef := c.N(600, 6000), c.N(300, 3000)
+	for k := 0; k < nNb; k++ {
+		if i := base + k; c.Mine(i) {
+			runSurroundings(c, sc, i, &r4)
+		}
+	}
+	base += nNb
+	for k := 0; k < nDef; k++ {
+		if i := base + k; c.Mine(i) {
+			runDefaults(c, sc, i, &r4)
+		}
+	}
+	c.Count("surroundings/files-planted-around-the-root", r4.nbDecoys)
+	c.Count("surroundings/reads-of-a-faulty-variable-refused", r4.nbReadsFaulted)
+	c.Count("surroundings/reads-of-a-whole-variable-returned-from-inside", r4.nbReadsInside)
+	c.Count("surroundings/entry-returned-after-a-faulty-variable", r4.nbEntryAfter)
+	c.Count("defaults/users-judged", r4.defUsers)
+	c.Count("defaults/fields-left-as-handed-out", r4.defLeft)
+	c.Count("defaults/fields-left-that-another-user-of-the-case-had-assigned-in-its-own-value", r4.defLeftAfterSet)
 	c.Count("events-again/later-runs-judged", as.evAgain)
 	c.Count("concurrent/object-name-calls-beside-other-goroutines", 3*as.concNames)
 	c.Count("concurrent/extractions-judged", as.concCalls)
@@ -163,6 +190,10 @@ func run(c *core.Ctx) {
 	c.Floor("edge/evidence-returned-under-respelled-places", as.edgeSpelled > 0 && as.edgeSpelledConf > 0)
 	c.Floor("edge/names-into-the-sibling-directory-run", as.edgeSibling > 0)
 	c.Floor("events-again/second-image-endorsed-from-a-kept-Context-and-its-events-judged", as.evAgainKept > 0)
+	c.Floor("surroundings/faulty-variable-refused-and-whole-variable-returned-amid-files-of-its-name-around-the-root", r4.nbReadsFaulted > 0 && r4.nbReadsInside > 0 && r4.nbBlobAmid > 0)
+	c.Floor("surroundings/certificate-table-entry-returned-after-a-faulty-variable", r4.nbEntryAfter > 0)
+	c.Floor("defaults/users-of-DefaultOptions-judged-with-fields-left-alone-that-another-user-had-assigned", r4.defUsers > 0 && r4.defLeftAfterSet > 0 && r4.defBare > 0)
+	c.Floor("defaults/users-at-the-same-time", r4.defTogether > 0)
 }
 
 // probeNilProvider records (as a note, never a verdict) what the extract command does on a host
